@@ -11,17 +11,17 @@ Require Import Base.Iter Gen.Consts Gen.Types Gen.Preds Gen.DemuxGen
 Import ListNotations.
 Open Scope Z_scope.
 
-Definition gen_Rewind (s : dstate) (pb : option gpb) (prs : option go_parser) (sk : option go_skipper) :=
+Definition rewind_is_generated_subject (s : dstate) (pb : option gpb) (prs : option go_parser) (sk : option go_skipper) :=
   Demuxer_Rewind mworld unit unit gpb pool unit unit new_pool_m rewind_m
     tt (d_buffer s) tt (d_opt_size s) prs sk pb (d_pool s) tt tt (world_of s).
 
 Theorem rewind_is_generated s pb prs sk :
-  gen_Rewind s pb prs sk =
+  rewind_is_generated_subject s pb prs sk =
   Done (d_buffer (snd (rewind s)), @None gpb, d_pool (snd (rewind s)), fst (rewind s), @None gerr,
         world_of (snd (rewind s))) /\
   d_pb (snd (rewind s)) = None /\ d_opt_size (snd (rewind s)) = d_opt_size s.
 Proof.
-  unfold gen_Rewind, Demuxer_Rewind, new_pool_m, rewind_m, Demux.rewind, world_of, mw_set_reader.
+  unfold rewind_is_generated_subject, Demuxer_Rewind, new_pool_m, rewind_m, Demux.rewind, world_of, mw_set_reader.
   cbn [obind mw_reader mw_pm mw_groups mw_consulted].
   destruct (rewind_reader (d_reader s)) as [n r']. cbn [obind is_some fst snd d_buffer d_pb d_pool d_pm d_reader d_groups d_consulted d_opt_size].
   repeat split.
